@@ -52,6 +52,7 @@ func runC06(c *Ctx) {
 	c.c06MoveGuards()
 	c.c06CopyToDirectory()
 	c.c06MoveFolderEntries()
+	c.c06MissingSourceFirst()
 }
 
 // c06Overlap: "a copy never changes its source, also when source and destination overlap" / "a call terminates".
@@ -1221,4 +1222,73 @@ func (c *Ctx) c06MoveFolderEntries() {
 	})
 	c.check(n > 0 && bad == "", "Z12", key, c.pos(mf.Pos()), "each entry src/<name> is moved to dest/<name>",
 		"the entry moved at "+bad+" is not sent to the destination joined with its own name: a sub-directory handed the destination directory itself is merged into it — the sub-tree is flattened and files of the same name at different depths overwrite one another")
+}
+
+// c06MissingSourceFirst (Z13): "the values returned, the error kinds … are those of … mv, cp": a missing source is reported
+// as such whatever the destination — the source itself included. In the move and the copy workers, a return that is
+// justified by the two paths being equal comes after the source was looked for.
+func (c *Ctx) c06MissingSourceFirst() {
+	c.rule("Z13", "move / copy: a successful return justified by source and destination being the same path is preceded by the test that the source exists", 3)
+	for _, name := range []string{"(*VFS).MoveWithContext", "CopyBetweenFSWithExclusionRegexes"} {
+		f := c.fn(fsPkgRel, name)
+		if f == nil {
+			continue
+		}
+		c.FuncsSeen[fname(f)] = true
+		si, di := paramIndexByName(f, "src"), paramIndexByName(f, "dest")
+		if si < 0 || di < 0 {
+			c.undecided("Z13", fname(f)+"/same-path", c.pos(f.Pos()), "parameters src / dest not found")
+			continue
+		}
+		src, dest := f.Params[si], f.Params[di]
+		from := func(v ssa.Value, p *ssa.Parameter) bool {
+			for _, l := range sources(v, deriveOpts{through: func(n string) bool { return strings.HasPrefix(n, "path/filepath.") || strings.HasPrefix(n, "strings.") }}) {
+				if l == ssa.Value(p) {
+					return true
+				}
+			}
+			return false
+		}
+		n := 0
+		for _, b := range f.Blocks {
+			ifi, ok := b.Instrs[len(b.Instrs)-1].(*ssa.If)
+			if !ok {
+				continue
+			}
+			bo, ok := ifi.Cond.(*ssa.BinOp)
+			if !ok || bo.Op != token.EQL || !((from(bo.X, src) && from(bo.Y, dest)) || (from(bo.X, dest) && from(bo.Y, src))) {
+				continue
+			}
+			// a successful return on the equal side
+			var r *ssa.Return
+			for _, rb := range f.Blocks {
+				if x, isR := rb.Instrs[len(rb.Instrs)-1].(*ssa.Return); isR && edgeDominates(b, 0, rb) && !isErrorExit(f, x) {
+					r = x
+				}
+			}
+			if r == nil {
+				continue
+			}
+			n++
+			looked := false
+			allInstrs(f, func(in ssa.Instruction) {
+				cl, ok := in.(*ssa.Call)
+				if !ok {
+					return
+				}
+				if nm, args, ok := fsMethodCall(cl); ok && (nm == "Exists" || nm == "Stat" || nm == "Lstat") && len(args) > 0 && from(args[0], src) && dominates(cl, ifi) {
+					looked = true
+				}
+			})
+			key := fname(f) + "/same-path"
+			if n > 1 {
+				key += "#" + strconv.Itoa(n)
+			}
+			c.check(looked, "Z13", key, c.ipos(ifi), "the source was looked for before the paths are compared",
+				"the call returns successfully because source and destination are the same path, before it has looked for the source: moving or copying a path that does not exist onto itself succeeds, whereas every other move or copy of a missing source fails with 'not found' (as mv and cp do)")
+		}
+		if n == 0 {
+			c.info("Z13", fname(f)+"/same-path", c.pos(f.Pos()), "no successful return justified by the equality of the two paths")
+		}
+	}
 }
